@@ -13,6 +13,12 @@ SPECS = [
          inputs=[("dim", "Z"), ("n_stack", "Z")], subst={"stacked_shape[repeat_axis]": "dim"}, outputs=[("dim", "Z")]),
     # the default for non-image spaces when channels_order is None
     dict(name="default_channels_first", qual=_Q, start=r"^channels_first = (True|False)$", end=None, kind="expr", ret="bool", inputs=[]),
+    # the image test decides the automatic order: `if is_image_space(observation_space):` and the order it then takes.
+    # The substitutions name the EXACT calls: a changed argument list no longer matches and the fragment is not regenerated (reported).
+    dict(name="auto_order_is_image_guard", qual=_Q, start=r"^if is_image_space\b", end=None, kind="test",
+         inputs=[("is_image_default_args", "bool")], subst={"is_image_space(observation_space)": "is_image_default_args"}),
+    dict(name="auto_order_of_image", qual=_Q, start=r"^channels_first = is_image_space_channels_first\b", end=None, kind="expr", ret="bool",
+         inputs=[("smallest_axis_first", "bool")], subst={"is_image_space_channels_first(observation_space)": "smallest_axis_first"}),
     # update(): shift = -observations.shape[self.stack_dimension]
     dict(name="update_shift", qual="StackedObservations.update", start=r"^shift = ", end=None, kind="expr", ret="Z",
          inputs=[("frame", "Z")], subst={"observations.shape[self.stack_dimension]": "frame"}),
